@@ -1,4 +1,5 @@
 import MemcVerif.Props.C05
+import MemcVerif.Model.Policy
 /-!
 # C08 — delete and flush remove exactly what they should
 -/
@@ -97,6 +98,28 @@ theorem C08_later_stores_unaffected (s : MemStore) (now n t1 : Nat) (k : Key) (v
 example : ((⟨[([1], ⟨⟨0, 1, 0, 0⟩, [65]⟩), ([2], ⟨⟨3, 2, 0, 50⟩, [66]⟩)], 3⟩ : MemStore).flush 10 5).vis 14 [1]
     = some ⟨⟨10, 1, 0, 5⟩, [65]⟩ := by decide
 
+/-! ## Behind the eviction policy -/
+
+/-- delete behind the policy is the store's delete: the same answer, the same keys removed, the other keys untouched; the
+    accounting gives back exactly the removed record's bytes and is untouched by a refusal -/
+theorem C08_delete_under_policy (p : Policy) (k : Key) (cas : Nat) :
+    (p.delete k cas).2 = (p.inner.delete k cas).2 ∧
+    (p.delete k cas).1.inner = (p.inner.delete k cas).1 ∧
+    (∀ x, (p.inner.delete k cas).2 = .ok x → (p.delete k cas).1.usage = wsub p.usage x.len) ∧
+    (∀ e, (p.inner.delete k cas).2 = .error e → (p.delete k cas).1.usage = p.usage) := by
+  simp only [Policy.delete]
+  cases h : (p.inner.delete k cas).2 with
+  | ok x => simp
+  | error e => simp
+
+/-- flush behind the policy is the store's flush -/
+theorem C08_flush_under_policy (p : Policy) (now n : Nat) (k : Key) (t : Nat) :
+    (p.flush now n).inner = p.inner.flush now n ∧
+    (n = 0 → (p.flush now n).inner.vis t k = none) := by
+  refine ⟨rfl, ?_⟩
+  intro hn; subst hn
+  exact C08_flush_now p.inner now k t
+
 end Memc
 
 #print axioms Memc.C08_delete_exact
@@ -106,3 +129,5 @@ end Memc
 #print axioms Memc.C08_flushed_stays_gone
 #print axioms Memc.C08_flush_only_shortens
 #print axioms Memc.C08_later_stores_unaffected
+#print axioms Memc.C08_delete_under_policy
+#print axioms Memc.C08_flush_under_policy
